@@ -84,7 +84,16 @@ func (g *sgen) portionLit() Expr {
 		}
 		return &Ratio{Text: ns + sep + ds}
 	}
-	switch g.r.Intn(4) {
+	switch g.r.Intn(6) {
+	case 4: // many decimals
+		n := g.r.Range(4, 30)
+		b := make([]byte, n)
+		for i := range b {
+			b[i] = byte('0' + g.r.Intn(10))
+		}
+		return &Percent{Text: itoa(g.r.Intn(100)) + "." + string(b) + "%"}
+	case 5: // big ratio
+		return &Ratio{Text: g.r.Pick("123456789012345678901/987654321098765432109", "1/18446744073709551616", "9223372036854775808/9223372036854775809", "00000000000000000001/3")}
 	case 0:
 		return &Percent{Text: itoa(g.r.Intn(101)) + "%"}
 	case 1:
